@@ -281,68 +281,6 @@ def s17_sign_discipline(ctx):
     prog = ctx.prog
     b = prog.one("net::frame::get_integer")
     f = fam_name(b)
-    # is_positive: switch on a bool user variable assigned false on the '-' arm
-    sw = None
-    for bb in sorted(b.live_blocks()):
-        info = b.switch_info(bb)
-        if info and info["kind"] == "bool":
-            o = info["on"]
-            if o[0] == "var" and (o[2] or "").startswith("is_pos"):
-                sw = (bb, info, o[1])
-    if sw is None:
-        r.unrec(f, "branch on the sign flag", short_span(b.span), "no `if is_positive` found")
-        return r
-    bb, info, flag = sw
-    # which sign byte sets the flag to what: walk from the entry to the flag test with the byte that
-    # peek_byte returned fixed to '-', '+' and a digit; switches on that byte (a `match` on it or
-    # `== b'-'` tests) are decided, every other switch before the flag test must be a `?`
-    is_peek = lambda x: x[0] == "call" and x[1] and x[1].endswith("peek_byte")
-
-    def flag_for(v):
-        """value of the sign flag when the flag test is reached, with the byte peek_byte returned
-        fixed to v: switches on that byte are decided, `?` takes its success side, every other
-        switch (an assertion, a bounds check) is followed on all sides that get there"""
-        arrived = set()
-        seen = set()
-        stack = [(0, None)]
-        while stack:
-            cur, val = stack.pop()
-            if (cur, val) in seen or len(seen) > 4000:
-                continue
-            seen.add((cur, val))
-            if cur == bb:
-                arrived.add(val)
-                continue
-            for st in b.blocks[cur]["stmts"]:
-                if st["k"] == "assign" and not st["pl"]["p"] and st["pl"]["l"] == flag:
-                    val = const_int(b.origin_rvalue(st["rv"]))
-            si = b.switch_info(cur)
-            nxts = None
-            if si is not None and si["kind"] == "int" and origin_mentions(si["on"], is_peek):
-                nxts = [e.dst for e in b.succ[cur] if str(v) in si["arms"].get(e.dst, [])] or [si.get("otherwise")]
-            elif si is not None and si["kind"] == "bool":
-                o = peel_var(si["on"])
-                if o[0] == "bin" and o[1] in ("Eq", "Ne") and (origin_mentions(o[2], is_peek) or origin_mentions(o[3], is_peek)):
-                    c = const_int(o[3]) if origin_mentions(o[2], is_peek) else const_int(o[2])
-                    if c is not None:
-                        truth = (v == c) if o[1] == "Eq" else (v != c)
-                        nxts = [e.dst for e in b.succ[cur] if si["arms"].get(e.dst) == [truth]]
-            elif si is not None and si["kind"] == "variant":
-                ok = [e.dst for e in b.succ[cur] if si["arms"].get(e.dst) in (["Continue"], ["Ok"])]
-                if ok:
-                    nxts = ok
-            if nxts is None:
-                nxts = [e.dst for e in b.succ[cur] if e.kind != "unwind"]
-            for n in nxts:
-                if n is not None:
-                    stack.append((n, val))
-        return list(arrived)[0] if len(arrived) == 1 else "?"
-
-    sign_map = {"'-'": flag_for(45), "'+'": flag_for(43), "digit": flag_for(48)}
-    want = {"'-'": 0, "'+'": 1, "digit": 1}
-    r.add(f, "'-' ⇒ negative, '+' / none ⇒ positive", sign_map == want, where(b, bb), "sign byte → flag: %s" % sign_map)
-    t_dst = [e.dst for e in b.succ[bb] if info["arms"].get(e.dst) == [True]]
-    f_dst = [e.dst for e in b.succ[bb] if info["arms"].get(e.dst) == [False]]
     rets = {x for x in b.live_blocks() if b.term(x)["k"] == "return"}
 
     def region_ops(dst, other):
@@ -368,8 +306,138 @@ def s17_sign_discipline(ctx):
                             cn = strip_generics(ct2.get("callee")) or ""
                             if "checked_" in cn:
                                 ops.add((cn.split("::")[-1], None))
+                cn = strip_generics(t.get("callee")) or ""
+                if "::checked_" in cn and cn.startswith(("core::num", "std::num", "i64::")):
+                    ops.add((cn.split("::")[-1], None))
         return ops
 
+    # the sign branch: the two-way test whose sides are the adding and the subtracting accumulation — whatever
+    # carries the sign (a bool flag, an enum, the byte itself)
+    sw = None
+    for bb in sorted(b.live_blocks()):
+        info = b.switch_info(bb)
+        if not info or "macro" in (b.term(bb).get("exp") or ""):
+            continue
+        dsts = [e.dst for e in b.succ[bb] if e.kind != "unwind" and info["arms"].get(e.dst)]
+        if len(dsts) != 2:
+            continue
+        o0, o1 = region_ops([dsts[0]], [dsts[1]]), region_ops([dsts[1]], [dsts[0]])
+        if ("Add", None) in o0 and ("Sub", None) in o1 and ("Sub", None) not in o0 and ("Add", None) not in o1:
+            sw = (bb, info, dsts[0], dsts[1])
+        elif ("Add", None) in o1 and ("Sub", None) in o0 and ("Sub", None) not in o1 and ("Add", None) not in o0:
+            sw = (bb, info, dsts[1], dsts[0])
+        if sw:
+            break
+    if sw is None:
+        r.unrec(f, "branch on the sign", short_span(b.span), "no two-way test separating the adding from the subtracting accumulation")
+        return r
+    bb, info, pos_dst, neg_dst = sw
+    # which sign byte leads to which side: walk from the entry to the sign test with the byte that peek_byte
+    # returned fixed to '-', '+' and a digit, carrying the constants, enum values and Ok/Some wrappers that are
+    # assigned on the way; tests of that byte and of carried values are decided, `?` takes its success side
+    is_peek = lambda x: x[0] == "call" and x[1] and x[1].endswith("peek_byte")
+
+    def simple(op):
+        return op.get("k") in ("move", "copy") and not op["pl"]["p"]
+
+    def step_env(env, cur, v):
+        env = dict(env)
+        for st in b.blocks[cur]["stmts"]:
+            if st["k"] != "assign":
+                continue
+            if st["pl"]["p"]:
+                env.pop(st["pl"]["l"], None)
+                continue
+            L, rv = st["pl"]["l"], st["rv"]
+            val = None
+            if rv["k"] == "use" and rv["op"].get("k") == "const" and rv["op"].get("int") is not None:
+                val = ("i", int(rv["op"]["int"]))
+            elif rv["k"] == "use" and simple(rv["op"]):
+                val = env.get(rv["op"]["pl"]["l"])
+            elif rv["k"] == "use" and rv["op"].get("k") in ("move", "copy") and len(rv["op"]["pl"]["p"]) == 2 and rv["op"]["pl"]["p"][0][0] == "dc":
+                x = env.get(rv["op"]["pl"]["l"])
+                if x and x[0] == "v" and x[1] == rv["op"]["pl"]["p"][0][1] and len(x) > 2:
+                    val = x[2]
+            elif rv["k"] == "agg" and rv.get("ak") == "adt" and rv.get("variant") is not None:
+                inner = env.get(rv["ops"][0]["pl"]["l"]) if len(rv["ops"]) == 1 and simple(rv["ops"][0]) else None
+                val = ("v", rv["variant"], inner) if len(rv["ops"]) == 1 else ("v", rv["variant"])
+            elif rv["k"] == "discr" and not rv["pl"]["p"]:
+                x = env.get(rv["pl"]["l"])
+                if x and x[0] == "v":
+                    val = ("d", x[1])
+            elif rv["k"] == "un" and rv.get("op") == "Not" and simple(rv["a"]):
+                x = env.get(rv["a"]["pl"]["l"])
+                if x and x[0] == "i":
+                    val = ("i", 1 - x[1])
+            elif rv["k"] == "bin" and rv["op"] in ("Eq", "Ne"):
+                fo = b.origin_rvalue(rv)
+                if origin_mentions(fo[2], is_peek) or origin_mentions(fo[3], is_peek):
+                    c = const_int(fo[3]) if origin_mentions(fo[2], is_peek) else const_int(fo[2])
+                    if c is not None:
+                        val = ("i", int((v == c) if rv["op"] == "Eq" else (v != c)))
+            if val is None:
+                env.pop(L, None)
+            else:
+                env[L] = val
+        t = b.term(cur)
+        if t["k"] == "call" and not t["dest"]["p"]:
+            env.pop(t["dest"]["l"], None)
+            cn = strip_generics(t.get("callee")) or ""
+            if cn.endswith("Try::branch") and t["args"] and simple(t["args"][0]):
+                x = env.get(t["args"][0]["pl"]["l"])
+                if x and x[0] == "v" and x[1] in ("Ok", "Some"):
+                    env[t["dest"]["l"]] = ("v", "Continue", x[2] if len(x) > 2 else None)
+                elif x and x[0] == "v" and x[1] in ("Err", "None"):
+                    env[t["dest"]["l"]] = ("v", "Break", x[2] if len(x) > 2 else None)
+        return env
+
+    def side_for(v):
+        arrived = set()
+        seen = set()
+        stack = [(0, ())]
+        while stack:
+            cur, envt = stack.pop()
+            if (cur, envt) in seen or len(seen) > 6000:
+                continue
+            seen.add((cur, envt))
+            env = step_env(dict(envt), cur, v)
+            t = b.term(cur)
+            si = b.switch_info(cur)
+            nxts = None
+            known = env.get(t["op"]["pl"]["l"]) if t["k"] == "switch" and simple(t["op"]) else None
+            if si is not None and known is not None and known[0] == "i" and si["kind"] == "bool":
+                nxts = [e.dst for e in b.succ[cur] if si["arms"].get(e.dst) == [bool(known[1])]]
+            elif si is not None and known is not None and known[0] == "d" and si["kind"] == "variant":
+                nxts = [e.dst for e in b.succ[cur] if known[1] in si["arms"].get(e.dst, [])]
+            elif si is not None and si["kind"] == "int" and origin_mentions(si["on"], is_peek):
+                nxts = [e.dst for e in b.succ[cur] if str(v) in si["arms"].get(e.dst, [])] or [si.get("otherwise")]
+            elif si is not None and si["kind"] == "bool":
+                o = peel_var(si["on"])
+                if o[0] == "bin" and o[1] in ("Eq", "Ne") and (origin_mentions(o[2], is_peek) or origin_mentions(o[3], is_peek)):
+                    c = const_int(o[3]) if origin_mentions(o[2], is_peek) else const_int(o[2])
+                    if c is not None:
+                        truth = (v == c) if o[1] == "Eq" else (v != c)
+                        nxts = [e.dst for e in b.succ[cur] if si["arms"].get(e.dst) == [truth]]
+            elif si is not None and si["kind"] == "variant":
+                ok = [e.dst for e in b.succ[cur] if si["arms"].get(e.dst) in (["Continue"], ["Ok"])]
+                if ok:
+                    nxts = ok
+            if nxts is None:
+                nxts = [e.dst for e in b.succ[cur] if e.kind != "unwind"]
+            if cur == bb:
+                for n in nxts:
+                    arrived.add("+" if n == pos_dst else ("-" if n == neg_dst else "?"))
+                continue
+            envt2 = tuple(sorted(env.items(), key=lambda kv: kv[0]))
+            for n in nxts:
+                if n is not None:
+                    stack.append((n, envt2))
+        return list(arrived)[0] if len(arrived) == 1 else "?"
+
+    sign_map = {"'-'": side_for(45), "'+'": side_for(43), "digit": side_for(48)}
+    want = {"'-'": "-", "'+'": "+", "digit": "+"}
+    r.add(f, "'-' ⇒ negative, '+' / none ⇒ positive", sign_map == want, where(b, bb), "sign byte → accumulation: %s" % sign_map)
+    t_dst, f_dst = [pos_dst], [neg_dst]
     pos_ops = region_ops(t_dst, f_dst)
     neg_ops = region_ops(f_dst, t_dst)
     r.add(f, "positive branch: ×10, +digit, checked_mul, checked_add", pos_ops == {("Mul", 10), ("Add", None), ("checked_mul", None), ("checked_add", None)}, where(b, bb), "%s" % sorted(str(x) for x in pos_ops))
@@ -392,15 +460,75 @@ def s17_sign_discipline(ctx):
 
 
 def s18_encoder_sequence(ctx):
-    r = RuleResult("S18", "Connection::write_single_value emits, per frame kind, exactly the RESP sequence: '+'/'-' then the text then CRLF; ':' then the decimal of the value then CRLF; '$' then the decimal of the payload length, CRLF, the payload, CRLF; the null literal; write_array emits '*', the decimal of the number of items, CRLF, then every item", floor=8)
+    r = RuleResult("S18", "Connection::write_single_value emits, per frame kind, exactly the RESP sequence: '+'/'-' then the text then CRLF; ':' then the decimal of the value then CRLF; '$' then the decimal of the payload length, CRLF, the payload, CRLF; the null literal; write_array emits '*', the decimal of the number of items, CRLF, then every item; a decimal is the text of `write!(cursor, \"{}\", v)` cut at the cursor's position (or v.to_string())", floor=7)
     prog = ctx.prog
     fam = prog.family("net::connection::Connection::write_single_value")
     wb = [x for x in fam if x.coroutine]
     if not wb:
         r.unrec("net::connection::Connection::write_single_value", "body", "src/net/connection.rs", "not found")
         return r
-    wb = wb[0]
+    import inline
+    # the decimal writer is read in place (written out into the encoder), whatever helper or type carries it
+    wb = inline.expanded_view(prog, wb[0], {"Connection::write_decimal"})
     f = "net::connection::Connection::write_single_value"
+    notdbg_t = lambda t_: "macro:debug_assert" not in (t_.get("fn_exp") or "") + (t_.get("exp") or "")
+
+    def var_id(o):
+        while o[0] in ("clone", "cast"):
+            o = o[1]
+        return o[1] if o[0] == "var" else None
+
+    def dec_value(body, o):
+        """origin of v when o is the text `write!(cursor, "{}", v)` produced, cut at the cursor's position
+        (`&cursor.get_ref()[..pos]`, or the same bytes of the array under the cursor), or `v.to_string()`; else None"""
+        from k3 import _lit_from_display
+        o = peel(o)
+        if o[0] == "call" and o[1].endswith("Index::index") and len(o[2]) == 2:
+            rng, src = peel(o[2][1]), peel(o[2][0])
+            if not (rng[0] == "agg" and (rng[2] or "").endswith("RangeTo") and rng[4]):
+                return None
+            end = list(rng[4].values())[0]
+            pcs = origin_mentions(end, lambda y: y[0] == "call" and y[1].endswith("Cursor::position") and y[3][0] == body.path)
+            if len(pcs) != 1 or not pcs[0][2]:
+                return None
+            cur = var_id(pcs[0][2][0])
+            if cur is None:
+                return None
+            wfs = [(bb, t) for _, bb, t in calls_in([body], "std::io::Write::write_fmt") if notdbg_t(t) and var_id(arg_origin(body, t, 0)) == cur]
+            if len(wfs) != 1:
+                return None
+            # every write into that cursor is this one formatting
+            if [1 for _, bb, t in calls_in([body], "std::io::Write::write", "std::io::Write::write_all") if var_id(arg_origin(body, t, 0)) == cur]:
+                return None
+            ao = arg_origin(body, wfs[0][1], 1)
+            news = origin_mentions(ao, lambda y: y[0] == "call" and y[1].endswith("fmt::Arguments::new"))
+            disp = origin_mentions(ao, lambda y: y[0] == "call" and y[1].endswith("fmt::rt::Argument::new_display"))
+            alln = origin_mentions(ao, lambda y: y[0] == "call" and "fmt::rt::Argument::new_" in y[1])
+            if len(news) != 1 or len(disp) != 1 or len(alln) != 1 or not news[0][2] or not disp[0][2]:
+                return None
+            tm = peel(news[0][2][0])
+            tb = (const_bytes(tm) or _lit_from_display(tm[1].get("v"))) if tm[0] == "const" else None
+            if tb != b"\xc0\x00":
+                return None
+            # the bytes sent are the cursor's own buffer
+            curo = pcs[0][2][0]
+            while curo[0] in ("clone", "cast"):
+                curo = curo[1]
+            mk = peel(curo)
+            under = None
+            if mk[0] == "call" and mk[1].endswith("Cursor::new") and mk[2]:
+                vs = origin_mentions(mk[2][0], lambda y: y[0] == "var")
+                under = vs[0][1] if vs else None
+            if src[0] == "call" and src[1].endswith("Cursor::get_ref") and src[2] and var_id(src[2][0]) == cur:
+                return disp[0][2][0]
+            if under is not None and origin_mentions(src, lambda y: y[0] == "var" and y[1] == under):
+                return disp[0][2][0]
+            return None
+        ts = origin_mentions(o, lambda y: y[0] == "call" and y[1].split("::")[-1] == "to_string" and y[1].endswith("ToString::to_string"))
+        if len(ts) == 1 and ts[0][2] and not origin_mentions(o, lambda y: y[0] == "call" and y[1].split("::")[-1] in ("index", "get", "trim", "trim_start_matches", "split_at", "replace", "to_uppercase")):
+            return ts[0][2][0]
+        return None
+
     sbb = sinfo = None
     for bb in sorted(wb.live_blocks()):
         info = wb.switch_info(bb)
@@ -433,6 +561,10 @@ def s18_encoder_sequence(ctx):
                 out.append(("u8", chr(v) if v is not None else "?"))
             elif is_call_to(t, "tokio::io::AsyncWriteExt::write_all"):
                 o = arg_origin(body, t, 1)
+                dv = dec_value(body, o)
+                if dv is not None:
+                    out.append(("dec", dv))
+                    continue
                 bs = const_bytes(o)
                 if bs is None and peel(o)[0] == "const":
                     from k3 import _lit_from_display
@@ -493,6 +625,7 @@ def s18_encoder_sequence(ctx):
         r.add(f, "%s is written as the RESP sequence" % v, good, where(wb, sbb), "" if good else "writes %s" % [(k, x.decode("latin1") if isinstance(x, bytes) else (x if isinstance(x, str) else origin_str(x))) for k, x in seq])
     ab, a0, astop = array_writer_region(prog)
     if ab is not None:
+        ab = inline.expanded_view(prog, ab, {"Connection::write_decimal"})
         seq = seq_from(ab, a0, astop)
         kinds = [k for k, x in seq]
         o1 = peel(seq[1][1]) if len(seq) > 1 and seq[1][0] == "dec" else ("unknown", "")
@@ -503,12 +636,13 @@ def s18_encoder_sequence(ctx):
         it_ok = False
         for _, nb, nt in nx:
             o = arg_origin(ab, nt, 0)
-            if ("items" in origin_str(o) or "<Array>.0" in origin_str(o)) and not origin_mentions(o, lambda y: y[0] == "call" and y[1] and y[1].split("::")[-1] in ("skip", "take", "rev", "step_by", "filter")):
+            is_items = lambda y: y[0] in ("arg", "var", "field", "variant", "upvar") and ((access_path(y) or "") == "items" or (access_path(y) or "").endswith("<Array>.0"))
+            if ("items" in origin_str(o) or "<Array>.0" in origin_str(o) or origin_mentions(o, is_items)) and not origin_mentions(o, lambda y: y[0] == "call" and y[1] and y[1].split("::")[-1] in ("skip", "take", "rev", "step_by", "filter")):
                 it_ok = True
         r.add("net::connection::Connection::write_array", "iterates over all items in order", it_ok, short_span(ab.span))
     # write_decimal: the plain decimal of `value`, exactly the bytes that were formatted
-    dfam = prog.family("net::connection::Connection::write_decimal")
-    db = [x for x in dfam if x.coroutine]
+    dfam = prog.families.get(next((r_ for r_ in prog.families if strip_generics(r_) == "net::connection::Connection::write_decimal"), None), [])
+    db = [x for x in dfam if x.coroutine and not getattr(x, "spliced", False)]
     if db:
         db = db[0]
         fn = "net::connection::Connection::write_decimal"
@@ -691,25 +825,58 @@ def s20_client_response_mapping(ctx):
         "set": {"SimpleString": "unit-if-ok"},
         "del": {"Integer": "payload"},
     }
+    import inline
+    # the client's private helpers (read_response, …) are written out into each method: however the send / receive /
+    # classify steps are split over helpers, the rule reads them as one body
+    helpers = set()
+    for x in shipped_bodies(prog):
+        if x.name.startswith("net::client::") and x.def_kind in ("Fn", "AssocFn"):
+            sig = prog.fnsigs.get(x.path) or {}
+            if not sig.get("exported"):
+                helpers.add("::".join(strip_generics(x.name).split("::")[-2:]))
     for m, table in want.items():
         fam = prog.family("net::client::Client::%s" % m)
         f = "net::client::Client::%s" % m
-        rr = calls_in(fam, "net::client::Client::read_response")
-        wf = calls_in(fam, "net::connection::Connection::write_frame")
-        if len(rr) != 1 or len(wf) != 1 or rr[0][0] is not wf[0][0]:
-            r.unrec(f, "write_frame ×%d / read_response ×%d" % (len(wf), len(rr)), short_span(fam[0].span), "expected one of each in one body")
+        views = [inline.expanded_view(prog, x, helpers) for x in fam if x.coroutine]
+        views = [v for v in views if calls_in([v], "net::connection::Connection::read_frame", "net::connection::Connection::write_frame")]
+        if len(views) != 1:
+            r.unrec(f, "async body that talks to the connection", short_span(fam[0].span), "found %d" % len(views))
             continue
-        b, rbb, rt = rr[0]
+        b = views[0]
+        rr = calls_in([b], "net::connection::Connection::read_frame")
+        wf = calls_in([b], "net::connection::Connection::write_frame")
+        if len(rr) != 1 or len(wf) != 1:
+            r.unrec(f, "write_frame ×%d / read_frame ×%d" % (len(wf), len(rr)), short_span(fam[0].span), "expected one of each")
+            continue
+        _, rbb, rt = rr[0]
         wbb = wf[0][1]
-        # request first: read_response is not reachable without passing write_frame
+        rsite = (b.path, rbb)
+        from_read = lambda o: bool(origin_mentions(o, lambda x: x[0] == "call" and x[3] == rsite))
+        # request first: the read is not reachable without passing write_frame
         no_w = reach(b, [0], blocked_edges=lambda e: e.kind in ("unwind", "ydrop"), blocked_blocks={wbb})
         r.add(f, "the request is written before the response is read", rbb not in no_w, where(b, rbb))
+        after = reach(b, [rbb], blocked_edges=lambda e: e.kind in ("unwind", "ydrop"))
         sw = None
+        eos = err_arm = None
         for bb in sorted(b.live_blocks()):
             info = b.switch_info(bb)
-            if info and info["kind"] == "variant" and set(sum(info["arms"].values(), [])) >= {"Integer", "Null", "Array"} and bb in reach(b, [rbb], blocked_edges=lambda e: e.kind in ("unwind", "ydrop")):
+            if not info or info["kind"] != "variant" or bb not in after or "macro" in b.term(bb).get("exp", ""):
+                continue
+            labs_all = set(sum(info["arms"].values(), []))
+            if labs_all == {"None", "Some"} and from_read(info["on"]) and eos is None:
+                for e in b.succ[bb]:
+                    if info["arms"].get(e.dst) == ["None"]:
+                        rs = _arm_returns(b, e.dst)
+                        eos = (bb, bool(rs) and all(c == "err" for c, o in rs))
+            if "Error" in labs_all and "BulkString" in labs_all and from_read(info["on"]):
+                for e in b.succ[bb]:
+                    if info["arms"].get(e.dst) == ["Error"] and err_arm is None:
+                        rs = _arm_returns(b, e.dst)
+                        err_arm = (bb, bool(rs) and all(c == "err" for c, o in rs))
+            if sw is None and labs_all >= {"Integer", "Null", "Array"} and from_read(info["on"]) and any(len(l) == 1 and l[0] in table for l in info["arms"].values()):
                 sw = (bb, info)
-                break
+        r.add(f, "end of stream ⇒ Err", eos is not None and eos[1], where(b, eos[0] if eos else rbb))
+        r.add(f, "Error frame ⇒ Err", err_arm is not None and err_arm[1], where(b, err_arm[0] if err_arm else rbb))
         if sw is None:
             r.unrec(f, "match on the response", where(b, rbb), "not found")
             continue
@@ -723,11 +890,11 @@ def s20_client_response_mapping(ctx):
                 kind = table[labs[0]]
                 pl = "<%s>.0" % labs[0]
                 if kind == "some-payload":
-                    good = bool(rs) and all(c == "ok" and (lambda o: o is not None and peel_var(o)[0] == "agg" and peel_var(o)[3] == "Some" and (access_path(list(peel_var(o)[4].values())[0]) or "").endswith(pl))(_ok_payload(c, o)) for c, o in rs)
+                    good = bool(rs) and all(c == "ok" and (lambda o: o is not None and peel_var(o)[0] == "agg" and peel_var(o)[3] == "Some" and (access_path(list(peel_var(o)[4].values())[0]) or "").endswith(pl) and from_read(o))(_ok_payload(c, o)) for c, o in rs)
                 elif kind == "none":
                     good = bool(rs) and all(c == "ok" and (lambda o: o is not None and peel_var(o)[0] == "agg" and peel_var(o)[3] == "None")(_ok_payload(c, o)) for c, o in rs)
                 elif kind == "payload":
-                    good = bool(rs) and all(c == "ok" and (access_path(_ok_payload(c, o)) or "").endswith(pl) for c, o in rs)
+                    good = bool(rs) and all(c == "ok" and (access_path(_ok_payload(c, o)) or "").endswith(pl) and from_read(_ok_payload(c, o)) for c, o in rs)
                 else:
                     # Ok(()) only on the true edge of eq(payload, "OK")
                     eqs = [(x, t) for _, x, t in calls_in([b], "std::cmp::PartialEq::eq") if x in reach(b, [e.dst], blocked_edges=lambda z: z.kind in ("unwind", "ydrop"))]
@@ -749,34 +916,6 @@ def s20_client_response_mapping(ctx):
             else:
                 good = bool(rs) and all(c == "err" for c, o in rs) and not (set(labs) & set(table))
                 r.add(f, "any other reply ⇒ Err", good, where(b, bb), "%s: %s" % ("/".join(labs), "; ".join(c for c, o in rs)))
-    fam = prog.family("net::client::Client::read_response")
-    b = [x for x in fam if calls_in([x], "net::connection::Connection::read_frame")]
-    f = "net::client::Client::read_response"
-    if len(b) != 1:
-        r.unrec(f, "read_frame", short_span(fam[0].span), "found %d bodies" % len(b))
-        return r
-    b = b[0]
-    for bb in sorted(b.live_blocks()):
-        info = b.switch_info(bb)
-        if not info or info["kind"] != "variant":
-            continue
-        labs_all = set(sum(info["arms"].values(), []))
-        if labs_all == {"None", "Some"} and "macro" not in b.term(bb).get("exp", ""):
-            for e in b.succ[bb]:
-                if info["arms"].get(e.dst) == ["None"]:
-                    rs = _arm_returns(b, e.dst)
-                    r.add(f, "end of stream ⇒ Err", bool(rs) and all(c == "err" for c, o in rs), where(b, bb))
-        if "Error" in labs_all and "BulkString" in labs_all:
-            for e in b.succ[bb]:
-                labs = info["arms"].get(e.dst, [])
-                if not labs:
-                    continue
-                rs = _arm_returns(b, e.dst)
-                if labs == ["Error"]:
-                    r.add(f, "Error frame ⇒ Err", bool(rs) and all(c == "err" for c, o in rs), where(b, bb))
-                else:
-                    good = bool(rs) and all(c == "ok" and (access_path(_ok_payload(c, o)) or "").endswith("<Some>.0") for c, o in rs) and "Error" not in labs
-                    r.add(f, "any other frame ⇒ Ok(that frame)", good, where(b, bb), "; ".join("%s %s" % (c, origin_str(o)[:60] if o else "") for c, o in rs)[:200])
     return r
 
 
